@@ -27,10 +27,12 @@ type AssetCfg struct {
 }
 
 type Config struct {
-	Validators []ValCfg   `json:"validators"`
-	Delegators int        `json:"delegators"`
-	Natives    int        `json:"natives"`
-	Assets     []AssetCfg `json:"assets"`
+	Validators []ValCfg `json:"validators"`
+	Delegators int      `json:"delegators"`
+	// delegator 0 gets a 32-byte address (module/contract/interchain accounts) instead of a 20-byte key address
+	LongAddrDelegator bool       `json:"long_addr_delegator,omitempty"`
+	Natives           int        `json:"natives"`
+	Assets            []AssetCfg `json:"assets"`
 
 	// alliance params
 	RewardDelayNs   int64 `json:"reward_delay_ns"`
